@@ -299,6 +299,38 @@ def genai_events(ns, rng, tid0, tier):
         fresh, *_ = build(tokens=tokens * 2)
         events.append({"tid": tid, "seq": 101, "ev": "Refresh", "builder": "GenAIJob", "input": "output_token_count",
                        "differs": differing(footprints(ns, system), footprints(ns, fresh))})
+        # several builder inputs changed in ONE update (the way to change the provider: provider and model together), and an input
+        # edited after the service has been moved to another server: the derived parameters must follow as for a single edit
+        def build2(provider2, model2, tokens2):
+            gpu2 = c["GPUServer"].from_defaults("gpu server", storage=c["Storage"].from_defaults("storage"), compute=sv(ns, 64, "gpu"))
+            svc2 = c["GenAIModel"].from_defaults("genai", server=gpu2, provider=ns.SourceObject(provider2),
+                                                 model_name=ns.SourceObject(model2))
+            return usage(ns, [c["GenAIJob"]("genai job", svc2, output_token_count=sv(ns, tokens2, "dimensionless"))])
+        others = [(p2, m2) for p2, m2 in combos if (p2, m2) != (provider, model)]
+        same_provider = [m2 for p2, m2 in others if p2 == provider]
+        scenarios = [("provider+model_name(one update)", rng.choice(others), tokens * 2, False)]
+        if same_provider:
+            scenarios.append(("model_name+output_token_count(one update)", (provider, rng.choice(same_provider)), tokens * 3, False))
+            scenarios.append(("model_name(after the service was moved to another server)", (provider, rng.choice(same_provider)), tokens * 2, True))
+        for k, (label, (p2, m2), tok2, moved) in enumerate(scenarios):
+            try:
+                system, job, svc, gpu = build(tokens=tokens * 2)
+                if moved:
+                    svc.server = c["GPUServer"].from_defaults("gpu server 2", storage=c["Storage"].from_defaults("storage 2"),
+                                                              compute=sv(ns, 64, "gpu"))
+                    svc.model_name = ns.SourceObject(m2)
+                else:
+                    changes = []
+                    if p2 != provider:
+                        changes.append([svc.provider, ns.SourceObject(p2)])
+                    changes.append([svc.model_name, ns.SourceObject(m2)])
+                    if tok2 != tokens * 2:
+                        changes.append([job.output_token_count, sv(ns, tok2, "dimensionless")])
+                    ns.ModelingUpdate(changes)
+                d = differing(footprints(ns, system), footprints(ns, build2(p2, m2, tok2)))
+            except Exception as ex:   # noqa
+                d = [[f"raised {type(ex).__name__}", str(ex)[:100]]]
+            events.append({"tid": tid, "seq": 110 + k, "ev": "Refresh", "builder": "GenAIModel", "input": label, "differs": d})
     return events, tid
 
 
